@@ -30,6 +30,21 @@ fn main() {
             }
             out.flush().unwrap();
         }
-        _ => { eprintln!("usage: nvh run <script>"); std::process::exit(2); }
+        "loaddump" => {
+            // nvh loaddump <dir> : start-up load of a data directory, prints the dump or the panic
+            let dir = args.get(2).expect("dir").clone();
+            std::panic::set_hook(Box::new(|_| {}));
+            let r = std::panic::catch_unwind(|| {
+                let (dbs, repl_rx, sup_rx) = node::make_dbs(&dir, nundb::bo::ClusterRole::Primary, false);
+                nundb::bo::Databases::load_all_dbs(&dbs);
+                let n = node::Node { dbs, repl_rx, sup_rx, sessions: std::collections::BTreeMap::new(), dir: dir.clone(), notices: std::collections::HashMap::new(), last_dump: vec![] };
+                n.dump()
+            });
+            match r {
+                Ok(d) => for l in d { println!("{}", l); },
+                Err(_) => println!("R PANIC restart"),
+            }
+        }
+        _ => { eprintln!("usage: nvh run <script> | loaddump <dir>"); std::process::exit(2); }
     }
 }
